@@ -86,6 +86,10 @@ def cases(seed, tier, shard, nshards):
         if use_index:
             # plain entries and sort@display entries whose two parts start with different letters
             prefix += ' '.join('Ix%dz\\index{%s}' % (k, r.choice(WORDS + IDX_AT)) for k in range(r.randint(1, 6))) + '\n\n'
+        if use_index and r.random() < 0.5:
+            # index entries as the first thing of a list item and between \begin{..} and the first \item (no text before them)
+            prefix += '\\begin{itemize}\\index{%s}\n\\item\\index{%s} IxLaz\n\\item \\index{%s}IxLbz\\end{itemize}\n\n' % (r.choice(WORDS), r.choice(WORDS), r.choice(WORDS))
+        index_in_bib = use_index and use_bib and r.random() < 0.5
         natbib = use_bib and r.random() < 0.4
         if natbib:
             # the natbib commands in numeric mode (author-year mode needs the .aux file of a LaTeX run)
@@ -99,7 +103,7 @@ def cases(seed, tier, shard, nshards):
             prefix += 'Fna %s Fnb %s\n\n' % (note, note)
             suffix += '\nFnc %s\n' % note
         if use_bib:
-            suffix += '\n\\begin{thebibliography}{9}\\bibitem{zk1} BibA1z \\bibitem{zk2} BibA2z \\end{thebibliography}\n'
+            suffix += '\n\\begin{thebibliography}{9}\\bibitem{zk1}%s BibA1z \\bibitem{zk2} BibA2z \\end{thebibliography}\n' % ('\\index{%s}' % r.choice(WORDS) if index_in_bib else '')
         if use_index:
             # \printindex, or the environment an included makeindex .ind file consists of (plasTeX builds its own entries either way)
             suffix += '\n\\printindex\n' if r.random() < 0.7 else '\n\\begin{theindex}\n\\item Zi1y, 1\n\\indexspace\n\\item Zi2y, 2\n\\end{theindex}\n'
